@@ -196,13 +196,13 @@ def spec_of(name, case):
 
 def _size_class(err):
     """size class of an exponentiation error, part of the signature: the recorded finding (the checked eigen route accepts an
-    inaccurate decomposition) reaches about 1.3e-6 on the thorough lattice; anything an order of magnitude above that is a
-    different failure and must not share its signature"""
+    inaccurate decomposition: its precision test compares the rebuilt Q at rtol 1e-5) reaches about 2e-5 on the thorough
+    lattice; an error above 1e-3 is a different failure and must not share its signature"""
     if err <= 1e-6:
         return ""
-    if err <= 1e-5:
-        return "; error 1e-6..1e-5"
-    return "; error > 1e-5"
+    if err <= 1e-3:
+        return "; error 1e-6..1e-3"
+    return "; error > 1e-3"
 
 
 def check_case(name, case, acc, report=True):
